@@ -27,6 +27,7 @@ import GceTcb.Drive.RpCli
 import GceTcb.Drive.Argv
 import GceTcb.Drive.C16
 import GceTcb.Drive.C16Fs
+import GceTcb.Drive.C16Wire
 import GceTcb.Drive.C17
 import GceTcb.Drive.C18
 import GceTcb.Drive.C19
@@ -72,6 +73,7 @@ def dispatch (line : String) : String :=
     | "argv" => Drive.Argv.handle f
     | "c16" => Drive.C16.handle f
     | "c16fs" => Drive.C16Fs.handle f
+    | "c16wire" => Drive.C16Wire.handle f
     | "c17" => Drive.C17.handle f
     | "c18" => Drive.C18.handle f
     | "c19" => Drive.C19.handle f
